@@ -250,6 +250,7 @@ def umonFor : String → List UMonitor
   | "C10" => monC10.map lift ++ umonC02
   | "C11" => monC11.map lift ++ umonC03
   | "C14" => monC14.map lift
+  | "C07" => [ lift (fun _ st => at_ "latest-configuration-names-an-entry-that-is-gone" (latestConfigBacked st 0)) ]
   | "C12" => []
   | _ => umonAll
 
